@@ -254,6 +254,57 @@ def work(chunk, cif2, tier):
     return (n, out)
 
 
+# characters that may appear in block codes, frame codes, data names and table keys: the delimiters that are ordinary inside
+# a name, the first and last code point of every permitted range, and characters whose normalised form is longer
+NAME_CHARS2 = ['!', '~', '[', ']', '{', '}', '#', '$', "'", '"', ';', '_', '\\', ':', ' ', 'é', 'é', '퟿', '', '﷏', 'ﷰ', '�',
+               '\U00010000', '\U0001fffd', '\U00020000', '\U0010fffd', 'ß', 'ßß', 'ﬃ', 'क़', 'İ', 'ẞẞ']
+NAME_CHARS1 = ['!', '~', '[', ']', '{', '}', '#', '$', "'", '"', ';', '_', '\\', ':']
+
+
+def name_docs(cif2):
+    """(text, expected content) for documents whose block code / frame code / data name / looped name / table key carries one
+    of the name characters at its start, in its middle, at its end, or consists of it twice"""
+    head = '#\\#CIF_2.0\n' if cif2 else '#\\#CIF_1.1\n'
+    one = ('s', '1', 0)
+    two = ('s', '2', 0)
+    out = []
+    for c in (NAME_CHARS2 if cif2 else NAME_CHARS1):
+        for x in (c + 'x', 'x' + c + 'y', 'x' + c, c + c):
+            out.append((head + 'data_%s\n_a 1\n' % x, {x: {'loops': [[('_a',), [(one,)]]], 'frames': {}}}))
+            out.append((head + 'data_b\nsave_%s\n_a 1\nsave_\n_q 2\n' % x, {'b': {'loops': [[('_q',), [(two,)]]], 'frames': {x: {'loops': [[('_a',), [(one,)]]], 'frames': {}}}}}))
+            out.append((head + 'data_b\n_%s 1\n_q 2\n' % x, {'b': {'loops': [[('_' + x, '_q'), [(one, two)]]], 'frames': {}}}))
+            out.append((head + 'data_b\nloop_\n_%s\n_q\n1 2\n' % x, {'b': {'loops': [[('_' + x, '_q'), [(one, two)]]], 'frames': {}}}))
+            if cif2:
+                q = "'" if "'" not in x else ('"' if '"' not in x else "'" * 3)
+                out.append((head + 'data_b\n_a {%s%s%s:1 "q":2}\n' % (q, x, q), {'b': {'loops': [[('_a',), [(('t', ((x, one), ('q', two))),)]]], 'frames': {}}}))
+    return out
+
+
+def work_names(chunk, cif2):
+    ex = worker_exec('fast')
+    out = []
+    ex.run(['reset', 'cif.new C0'])
+    lines = []
+    for text, exp in chunk:
+        lines.append('bytes.set B0 %s' % text.encode('utf-8', 'surrogatepass').hex())
+        lines.append('parse.reuse C0 B0')
+    try:
+        ans = ex.run(lines, timeout=60)
+    except Crash as c:
+        return (len(chunk), [('crash', 'names', chunk[0][0], '%s %s' % (c, c.stderr[-800:]))])
+    for k, (text, exp) in enumerate(chunk):
+        a = ans[2 * k + 1]
+        if not isinstance(a, dict):
+            out.append(('driver', 'names', text, repr(a)))
+        elif a['rc'] != 0 or a['nerr'] != 0:
+            out.append(('error', 'names', text, 'rc %d, error callbacks %r' % (a['rc'], a['errs'][:3])))
+        else:
+            got = canon_dump(a['dump'])
+            if got != canon_exp_values(exp):
+                out.append(('content', 'names', text, 'parsed %s\nexpected %s' % (json.dumps(got, default=str)[:700], json.dumps(canon_exp_values(exp), default=str)[:700])))
+    return (len(chunk), out)
+
+
 CORE_ATOMS = ['a', '1.5(3)', '', "it's", 'x"y', ';', 'a\\', '[a]', 'loop_', '\u00e9\U0001F600', 'a\n;b', 'trail ', 'a\n', '?']
 
 
@@ -360,6 +411,18 @@ def main():
                 rep.violation({'dialect': 'CIF2' if cif2 else 'CIF1.1', 'kind': kind, 'structure': struct, 'doc': text[:60] if len(text) < 300 else text[:40] + '...'},
                               {'dialect': 'CIF2' if cif2 else 'CIF1.1', 'structure': struct, 'document': text[:3000], 'message': msg})
         nontriv += len(T) * len(T)
+        nd = name_docs(cif2)
+        summary[('cif2' if cif2 else 'cif1.1') + ' names'] = {'documents': len(nd)}
+        for res in pmap(work_names, chunked(nd, 8), (cif2,)):
+            if isinstance(res, dict):
+                rep.violation({'kind': 'executor'}, res)
+                continue
+            n, out = res
+            total += n
+            nontriv += n
+            for kind, struct, text, msg in out:
+                rep.violation({'dialect': 'CIF2' if cif2 else 'CIF1.1', 'kind': kind, 'structure': struct, 'doc': text[:60]},
+                              {'dialect': 'CIF2' if cif2 else 'CIF1.1', 'structure': struct, 'document': text[:3000], 'message': msg})
         if tier != 'quick' or os.environ.get('C01_TRIPLES'):
             # three-token documents over the reduced token set: a token between two others, in a loop row, a loop column and a list
             Tc = core_tokens(cif2)
@@ -378,8 +441,8 @@ def main():
             nontriv += len(Tc) ** 3
     return rep.finish({'evaluations': total, 'distinct_nontrivial': nontriv,
                        'rule': 'every document with 2 value tokens: ordered pairs over all (atom, presentation) tokens (%d atoms; presentations bare, single/double quoted, triple quoted, text field, folded text field with cuts, prefixed, prefixed+folded as admissible) '
-                               'in structures %s (CIF 1.1: %s), separators %r (full cross product for scalar pairs and loops), with and without the version comment; thorough: also every ordered TRIPLE over the reduced token set (all presentations of 14 core atoms) in a loop row, a loop column and a list; content known by construction from the generator. '
-                               'non-trivial = distinct ordered token pairs' % (len(ATOMS), STRUCTS2, STRUCTS1, SEPS),
+                               'in structures %s (CIF 1.1: %s), separators %r (full cross product for scalar pairs and loops), with and without the version comment; thorough: also every ordered TRIPLE over the reduced token set (all presentations of 14 core atoms) in a loop row, a loop column and a list; content known by construction from the generator; plus the names family: block code, frame code, data name, looped name and table key carrying each of %d name characters (delimiters that are ordinary inside a name, first / last code point of every permitted range, characters that grow under normalisation) at the start, in the middle, at the end and doubled. '
+                               'non-trivial = distinct ordered token pairs' % (len(ATOMS), STRUCTS2, STRUCTS1, SEPS, len(NAME_CHARS2)),
                        'samples': ["#\\#CIF_2.0\ndata_b _a 'it''s'...", 'loop_ _a <text field> <triple quoted>'], 'dialects': summary, 'exhaustive': True},
                       ['the generator (mc/c01.py: presentations(), fold_encode(), build_doc()) is the independent statement of the grammar',
                        'a bare number-like token may be reported as CHAR or NUMB kind (text and quoted status are compared)'])
